@@ -34,7 +34,9 @@ PURE = ("Option::unwrap_or", "From::from", "Into::into", "Ord::min", "Ord::max",
 def pure_call(e):
     s = X.short(e[1])
     return s in PURE or s.split("::")[-1] in ("leading_zeros", "saturating_sub", "min", "max", "from", "into",
-                                              "unwrap_or", "is_some", "is_none", "size_of", "len", "count")
+                                              "unwrap_or", "is_some", "is_none", "size_of", "len", "count",
+                                              "wrapping_sub", "wrapping_add", "saturating_add", "leading_ones",
+                                              "trailing_zeros", "abs_diff")
 
 
 def only_shared(ex, shared):
